@@ -45,7 +45,7 @@ ASSUMPTIONS = [
     "leaving the position unchanged is also accepted",
     "slice bounds follow Python slice clipping (step None or 1)",
 ]
-FLOORS = {"failed_transfer": 100, "op_checked": 5000, "confinement_checked": 1500,
+FLOORS = {"op_inside_controller_context": 5000, "stock_warning_filters": 5000, "views_for_vertices": 80, "cleared_allocation": 100, "failed_transfer": 100, "op_checked": 5000, "confinement_checked": 1500,
           "truncated_transfer": 200, "outside_position_transfer": 100,
           "closed_or_freed_op": 200, "slice_checked": 500}
 ANCHORS = [("rig.machine_control.machine_controller", "SlicedMemoryIO.read",
@@ -279,6 +279,10 @@ def run(case, ctx):
         """read/write commands seen by the machine since the mark"""
         out = []
         for cmd, (x, y, p), a, payload in m.cmds[mark[0]:]:
+            if cmd in (M.CMD["read"], M.CMD["write"], M.CMD["fill"]):
+                check((x, y, p) == (0, 0, 0), "view-addressed-another-core",
+                      "command %d of a view on chip (0, 0) went to %r" %
+                      (cmd, (x, y, p)))
             if cmd in (M.CMD["read"], M.CMD["write"]):
                 out.append((cmd, a[0], a[1]))
             elif cmd == M.CMD["fill"]:
@@ -325,7 +329,16 @@ def run(case, ctx):
                     # importing the library did to them): a truncation
                     # warning is a RuntimeWarning, shown by default
                     ctx.hit("stock_warning_filters")
-                res = do(op, v, views, mcm)
+                if case["seed"] % 3 == 1 and len(trace) % 2:
+                    # the application is inside a block that names a core
+                    # (and perhaps a chip) for its OTHER commands: a view
+                    # knows its own chip and always talks to the monitor
+                    ctx.hit("op_inside_controller_context")
+                    with mc(**[dict(p=3), dict(x=0, y=0, p=7),
+                               dict(p=17, app_id=99)][len(trace) % 3]):
+                        res = do(op, v, views, mcm)
+                else:
+                    res = do(op, v, views, mcm)
             exc = None
         except Exception as e:
             res, exc = None, e
